@@ -18,13 +18,16 @@
 //!          <stmt>                             statement in the thread's open session
 //!          db <stmt>                          Database::execute (autocommit) from that thread
 //!          flush                              Database::flush from that thread
+//!          db subq <table>                    `SELECT * FROM <table> WHERE k IN (SELECT k FROM <table>)` (autocommit): a statement the
+//!                                             engine does not support; admissible outcome: an error (class `other`), no effect.
+//!                                             On this tree its evaluation panics (runtime/eval.rs) in the pool worker that runs it
 //!   stmt   as engine `hist`: sel | ins | upd | del
 //!   The op list is one list only for the sake of shrinking: what is executed is, per thread, the subsequence of its ops.
 //!
 //! Observation syntax:
 //!   <kind> <call> <call> … | <table>=[rows] …
 //!   kind   run | interr (some call failed with an unexpected class) | hang:<t<i>#<k>,…> (calls that did not return within
-//!          10 s; k = index within the thread) | panic@<file:line> (first panic of any thread of the process during the case)
+//!          10 s; k = index within the thread) | panic@<file:line>[,hang:…] (first panic of any thread of the process during the case)
 //!   call   t<i>:<t0>:<t1>:<out>              out as engine `hist` (ok | ok<n> | [rows] | conflict | constraint | … | nosession)
 //!   final contents are read by the harness after all client threads have finished (absent after a hang: `-`)
 use super::hist::{self, Op as HOp, Stmt, Table};
@@ -55,6 +58,7 @@ enum TOp {
     Exec(Stmt),
     Auto(Stmt),
     Flush,
+    SubQ(String),
 }
 
 struct Setup {
@@ -132,7 +136,13 @@ fn parse_case(line: &str) -> Option<ParsedCase> {
                 "rollback" => TOp::Rollback,
                 "flush" => TOp::Flush,
                 _ => {
-                    if let Some(s) = rest.strip_prefix("db ") {
+                    if let Some(t) = rest.strip_prefix("db subq ") {
+                        let t = t.trim();
+                        if !st.tables.iter().any(|x| x.name == t) {
+                            return None;
+                        }
+                        TOp::SubQ(t.to_string())
+                    } else if let Some(s) = rest.strip_prefix("db ") {
                         if s.trim_start().starts_with("batch") {
                             return None;
                         }
@@ -299,6 +309,8 @@ struct CallRec {
     t0: u64,
     t1: u64,
     out: String,
+    /// the statement is one that has to fail (subq): `other` is its admissible outcome
+    must_fail: bool,
 }
 
 struct ThreadShared {
@@ -386,6 +398,10 @@ fn client(
                 let r = db.execute(&hist::sql_of(st)).map_err(|e| e.to_string());
                 show_result(r, matches!(st, Stmt::Sel { .. }), &mut diag)
             }
+            TOp::SubQ(t) => {
+                let r = db.execute(&format!("SELECT * FROM {} WHERE k IN (SELECT k FROM {})", t, t)).map_err(|e| e.to_string());
+                show_result(r, true, &mut diag)
+            }
             TOp::Flush => match db.flush() {
                 Ok(()) => "ok".to_string(),
                 Err(e) => {
@@ -396,7 +412,7 @@ fn client(
         };
         let t1 = ticket.fetch_add(1, Ordering::SeqCst);
         sh.in_call_since.store(0, Ordering::SeqCst);
-        sh.recs.lock().unwrap().push(CallRec { t0, t1, out });
+        sh.recs.lock().unwrap().push(CallRec { t0, t1, out, must_fail: matches!(op, TOp::SubQ(_)) });
         if !diag.is_empty() {
             sh.diag.lock().unwrap().extend(diag);
         }
@@ -423,7 +439,7 @@ pub fn run_case(line: &str) -> String {
     let dir = scratch_dir();
     let out = run_in(&dir, pc);
     // after a hang the stuck threads keep the database (and its files) alive; the directory is swept by a later process
-    if !out.starts_with("hang") {
+    if !out.split(' ').next().unwrap_or("").contains("hang:") {
         let _ = std::fs::remove_dir_all(&dir);
     }
     out
@@ -520,7 +536,7 @@ fn run_in(dir: &std::path::Path, pc: ParsedCase) -> String {
     let mut interr = false;
     for (tid, sh) in &shared {
         for r in sh.recs.lock().unwrap().iter() {
-            if matches!(r.out.as_str(), "other" | "type" | "notfound" | "ddl") || r.out.starts_with('?') {
+            if (matches!(r.out.as_str(), "other" | "type" | "notfound" | "ddl") || r.out.starts_with('?')) && !(r.must_fail && r.out == "other") {
                 interr = true;
             }
             calls.push((r.t0, format!("t{}:{}:{}:{}", tid, r.t0, r.t1, r.out)));
@@ -550,7 +566,7 @@ fn run_in(dir: &std::path::Path, pc: ParsedCase) -> String {
     }
     let panics = PANICS.lock().unwrap().clone();
     let kind = if let Some(p) = panics.first() {
-        format!("panic@{}", p)
+        if hung.is_empty() { format!("panic@{}", p) } else { format!("panic@{},hang:{}", p, hung.join(",")) }
     } else if !hung.is_empty() {
         format!("hang:{}", hung.join(","))
     } else if interr {
@@ -687,19 +703,65 @@ fn merge(rng: &mut Rng, per_thread: Vec<Vec<String>>) -> Vec<String> {
 enum Shape {
     /// 2 threads, autocommit inserts/deletes/selects, each on its own table
     AutoDistinct,
-    /// 3–4 writers (autocommit or sessions) on distinct tables + 1–2 readers of static tables
+    /// 2–3 writers (autocommit or sessions) on distinct tables + 1–2 readers of static tables
     WritersReaders,
     /// session writers on distinct tables, readers (sessions with repeated reads) of static tables, 5–8 threads
     Sessions,
-    /// as WritersReaders over tables preloaded to several levels (fill), small or large cache
+    /// as WritersReaders, one written and one static table preloaded to several pages (fill); cache 10000 or 32–64 pages
     Deep,
-    /// readers scan the tables that concurrent writers write (region `scan_vs_write`)
+    /// readers scan the very tables that the writers write (each table still has one writer); some tables of one page,
+    /// some preloaded to several pages so that scans run next to splits
     SameTableReaders,
-    /// several writers insert into the same table (region `same_table_writers`)
+    /// begin/commit stress: 2 session writers (short transactions, some rolled back), 2 autocommit writers that commit
+    /// rapidly on tables of their own, 2–3 readers that keep selecting the session writers' tables — every read must be
+    /// free of uncommitted and rolled-back rows and consistent with one order of the commits
+    SnapshotRace,
+    /// several writers insert into / delete from the SAME table (region `same_table_writers`)
     SameTableWriters,
+    /// as Deep with a cache of 12–20 pages, below the working set (region `small_cache`)
+    SmallCache,
+    /// as WritersReaders plus a thread that calls Database::flush (region `flush_concurrent`)
+    FlushConcurrent,
+    /// as WritersReaders plus `db subq` statements, at least as many as pool workers (region `panic_stmt`)
+    SubQ,
+}
+
+fn gen_snapshot_race(rng: &mut Rng) -> Case {
+    let mut per_thread: Vec<Vec<String>> = Vec::new();
+    for (t, tab) in [(1usize, "s1"), (2, "s2")] {
+        let mut l = Vec::new();
+        let mut k = 0;
+        for _ in 0..rng.range(4, 6) {
+            l.push(format!("t{} begin", t));
+            for _ in 0..rng.range(1, 2) {
+                k += 1;
+                l.push(format!("t{} ins {} {} {} 's'", t, tab, 100 * t + k, k));
+            }
+            l.push(format!("t{} {}", t, if rng.chance(7, 10) { "commit" } else { "rollback" }));
+        }
+        per_thread.push(l);
+    }
+    for (t, tab) in [(3usize, "a1"), (4, "a2")] {
+        per_thread.push((0..rng.range(10, 14)).map(|i| format!("t{} db ins {} {} {} 'w'", t, tab, 100 * t as i64 + i, i)).collect());
+    }
+    let nreaders = rng.range(2, 3) as usize;
+    for t in 5..5 + nreaders {
+        per_thread.push((0..rng.range(10, 14)).map(|_| format!("t{} db sel {}", t, if rng.chance(1, 2) { "s1" } else { "s2" })).collect());
+    }
+    let nthreads = per_thread.len();
+    let ops = merge(rng, per_thread);
+    let tabs: Vec<String> = ["s1", "s2", "a1", "a2"].iter().map(|n| format!("tab={}{}", n, TAB3)).collect();
+    let line = format!("threads {} cache=10000 pool=8 pace={} | {}", tabs.join(" "), rng.below(1_000_000_000), ops.join(" ; "));
+    let tags = ["nt", "shape:SnapshotRace", "session", "auto_ins", "auto_sel", "rollback", "scan_vs_write", "clean"];
+    let mut c = Case::new(line, &tags);
+    c.tags.push(format!("threads{}", nthreads));
+    c
 }
 
 fn gen_case(rng: &mut Rng, shape: Shape, small_cache: bool) -> Case {
+    if shape == Shape::SnapshotRace {
+        return gen_snapshot_race(rng);
+    }
     let mut g = Gen { rng };
     let (nw, nr) = match shape {
         Shape::AutoDistinct => (2usize, 0usize),
@@ -708,7 +770,11 @@ fn gen_case(rng: &mut Rng, shape: Shape, small_cache: bool) -> Case {
         Shape::Deep => (g.rng.range(2, 3) as usize, g.rng.range(1, 2) as usize),
         Shape::SameTableReaders => (g.rng.range(1, 3) as usize, g.rng.range(1, 3) as usize),
         Shape::SameTableWriters => (g.rng.range(2, 4) as usize, g.rng.range(0, 1) as usize),
+        Shape::SnapshotRace => unreachable!(),
+        Shape::SmallCache => (g.rng.range(2, 3) as usize, g.rng.range(1, 2) as usize),
+        Shape::FlushConcurrent | Shape::SubQ => (g.rng.range(2, 3) as usize, 1usize),
     };
+    let deep = matches!(shape, Shape::Deep | Shape::SmallCache);
     let mut setup: Vec<String> = Vec::new();
     let mut wtables: Vec<String> = Vec::new();
     for i in 1..=nw {
@@ -717,7 +783,10 @@ fn gen_case(rng: &mut Rng, shape: Shape, small_cache: bool) -> Case {
             setup.push(format!("tab={}{}", name, TAB3));
             // at most two filled tables per case: every inserted row adds a version to its table's catalog row, and a
             // catalog tree with more than three such big rows splits into big cells (the C10 finding KF-C10-divider-full-copy)
-            if (shape == Shape::Deep && i == 1) || (shape != Shape::AutoDistinct && shape != Shape::Deep && i == 1 && g.rng.chance(1, 4)) {
+            if (deep && i == 1)
+                || (shape == Shape::SameTableReaders && i == 1 && g.rng.chance(1, 2))
+                || (!deep && shape != Shape::AutoDistinct && shape != Shape::SameTableReaders && i == 1 && g.rng.chance(1, 4))
+            {
                 setup.push(format!("fill={}:{}:{}", name, g.rng.range(60, 160), g.rng.range(40, 100)));
             } else {
                 for k in 1..=g.rng.range(0, 3) {
@@ -733,7 +802,7 @@ fn gen_case(rng: &mut Rng, shape: Shape, small_cache: bool) -> Case {
         for i in 1..=2 {
             let name = format!("r{}", i);
             setup.push(format!("tab={}{}", name, TAB3));
-            if shape == Shape::Deep && i == 1 {
+            if deep && i == 1 {
                 setup.push(format!("fill={}:{}:{}", name, g.rng.range(60, 160), g.rng.range(40, 100)));
             } else {
                 for k in 1..=g.rng.range(1, 4) {
@@ -743,9 +812,16 @@ fn gen_case(rng: &mut Rng, shape: Shape, small_cache: bool) -> Case {
             rtables.push(name);
         }
     }
-    let cache = if small_cache { g.rng.range(24, 64) } else { 10000 };
+    let cache = if shape == Shape::SmallCache {
+        g.rng.range(12, 20)
+    } else if small_cache {
+        g.rng.range(32, 64)
+    } else {
+        10000
+    };
     setup.push(format!("cache={}", cache));
-    setup.push(format!("pool={}", g.rng.range(2, 8)));
+    let pool = if shape == Shape::SubQ { g.rng.range(2, 3) } else { g.rng.range(2, 8) };
+    setup.push(format!("pool={}", pool));
     setup.push(format!("pace={}", g.rng.below(1_000_000_000)));
     let mut per_thread: Vec<Vec<String>> = Vec::new();
     let mut tid = 0usize;
@@ -774,12 +850,32 @@ fn gen_case(rng: &mut Rng, shape: Shape, small_cache: bool) -> Case {
         g.reader(tid, &tabs, n, &mut ops);
         per_thread.push(ops);
     }
+    if shape == Shape::FlushConcurrent {
+        tid += 1;
+        per_thread.push((0..g.rng.range(2, 4)).map(|_| format!("t{} flush", tid)).collect());
+    }
+    if shape == Shape::SubQ {
+        // at least as many failing statements as pool workers, issued by two threads; afterwards ordinary statements
+        let mut left = pool + g.rng.range(0, 1);
+        for _ in 0..2 {
+            tid += 1;
+            let mut ops = Vec::new();
+            let n = (left + 1) / 2;
+            for _ in 0..n.min(left) {
+                ops.push(format!("t{} db subq {}", tid, rtables[0]));
+            }
+            left -= n.min(left);
+            ops.push(format!("t{} db sel {}", tid, rtables[0]));
+            ops.push(format!("t{} db sel {}", tid, rtables[1]));
+            per_thread.push(ops);
+        }
+    }
     let nthreads = per_thread.len();
     let ops = merge(g.rng, per_thread);
     let line = format!("threads {} | {}", setup.join(" "), ops.join(" ; "));
     let mut tags: Vec<String> = vec!["nt".into(), format!("threads{}", nthreads), format!("shape:{:?}", shape)];
-    if small_cache {
-        tags.push("small_cache".into());
+    if small_cache && shape != Shape::SmallCache {
+        tags.push("modest_cache".into());
     }
     if line.contains("fill=") {
         tags.push("deep_tree".into());
@@ -790,8 +886,14 @@ fn gen_case(rng: &mut Rng, shape: Shape, small_cache: bool) -> Case {
         }
     }
     match shape {
-        Shape::SameTableReaders => tags.push("scan_vs_write".into()),
+        Shape::SameTableReaders => {
+            tags.push("scan_vs_write".into());
+            tags.push("clean".into());
+        }
         Shape::SameTableWriters => tags.push("same_table_writers".into()),
+        Shape::SmallCache => tags.push("small_cache".into()),
+        Shape::FlushConcurrent => tags.push("flush_concurrent".into()),
+        Shape::SubQ => tags.push("panic_stmt".into()),
         _ => tags.push("clean".into()),
     }
     Case { line, tags }
@@ -801,17 +903,23 @@ impl Engine for ThreadsEngine {
     fn gen_cases(&self, rng: &mut Rng, tier: Tier) -> Vec<Case> {
         let mut out = Vec::new();
         let quick = tier == Tier::Quick;
-        let shapes = [Shape::AutoDistinct, Shape::WritersReaders, Shape::Sessions, Shape::Deep];
-        for _ in 0..(if quick { 40 } else { 220 }) {
-            for s in shapes {
+        let clean = [Shape::AutoDistinct, Shape::WritersReaders, Shape::Sessions, Shape::Deep, Shape::SameTableReaders, Shape::SnapshotRace];
+        // cases of the four known-finding regions are spread among the clean ones (a hang costs its supervisor slot 10 s)
+        let regions = [Shape::SameTableWriters, Shape::SmallCache, Shape::FlushConcurrent, Shape::SubQ, Shape::SameTableWriters];
+        let rounds = if quick { 40 } else { 240 };
+        for r in 0..rounds {
+            for s in clean {
                 let small = s == Shape::Deep && rng.chance(1, 2);
                 out.push(gen_case(rng, s, small));
             }
-        }
-        if !quick {
-            for _ in 0..60 {
-                out.push(gen_case(rng, Shape::SameTableReaders, false));
-                out.push(gen_case(rng, Shape::SameTableWriters, false));
+            // quick: 14 region cases in 254 (6 %); thorough: 160 in 1600 (10 %)
+            let every = if quick { 3 } else { 3 };
+            if r % every == 0 {
+                let s = regions[(r / every) % regions.len()];
+                out.push(gen_case(rng, s, false));
+                if !quick {
+                    out.push(gen_case(rng, regions[(r / every + 2) % regions.len()], false));
+                }
             }
         }
         out
